@@ -23,4 +23,25 @@ Definition prop_ok (c : case) : bool :=
     repaired by a `fix:` commit; no known class is left for this property *)
 Definition known_class (c : case) : N := 0%N.
 
-Definition report (cs : list case) := classify corr_ok prop_ok known_class cs.
+(** Second kind of case (whole job on `local(1)`, where every order is fixed): a `replay` loop
+    of [rounds] rounds over the stream 1..n whose body zips the loop stream with a SIDE INPUT
+    100..100+m-1 defined outside the loop and adds `a * 1000 + b` of every pair to the state.
+    The side input must be presented completely, once and identically in every round: the
+    pairs of every round are (i, 100 + i - 1) for i = 1..min(n, m). *)
+Inductive xcase :=
+| XBin (c : case)
+| XZipLoop (n m rounds : Z) (final_state : option Z).
+
+Definition zip_loop_expected (n m rounds : Z) : Z :=
+  let k := Z.to_nat (Z.min n m) in
+  Z.max rounds 1 * fold_left Z.add (map (fun i => (Z.of_nat i + 1) * 1000 + (100 + Z.of_nat i)) (seq 0 k)) 0.
+Definition zip_loop_ok (n m rounds : Z) (st : option Z) : bool :=
+  match st with Some v => Z.eqb v (zip_loop_expected n m rounds) | None => false end.
+
+Definition xcorr_ok (c : xcase) : bool :=
+  match c with XBin x => corr_ok x | XZipLoop n m r st => zip_loop_ok n m r st end.
+Definition xprop_ok (c : xcase) : bool :=
+  match c with XBin x => prop_ok x | XZipLoop n m r st => zip_loop_ok n m r st end.
+Definition xknown_class (c : xcase) : N := 0%N.
+
+Definition report (cs : list xcase) := classify xcorr_ok xprop_ok xknown_class cs.
